@@ -17,6 +17,7 @@ package pubsub
 import (
 	"context"
 	"fmt"
+	"github.com/echovault/sugardb/internal/verif"
 	"log"
 	"net"
 	"slices"
@@ -184,12 +185,14 @@ func (ps *PubSub) Publish(_ context.Context, message string, channelName string)
 		// If it's a regular channel, check if the channel name matches the name given
 		if channel.pattern == nil {
 			if channel.name == channelName {
+				verif.Point("ps.enqueue")
 				channel.Publish(message)
 			}
 			continue
 		}
 		// If it's a glob pattern channel, check if the name matches the pattern
 		if channel.pattern.Match(channelName) {
+			verif.Point("ps.enqueue")
 			channel.Publish(message)
 		}
 	}
